@@ -33,29 +33,56 @@ def spaces_of(defs):
 
 
 def steps_of(F):
-    """ordered [(bb, callee, defs reachable)] for the non-macro calls of emit_wasm outside loops"""
-    body = F.mir[EW]
-    c = Cfg(body)
+    """ordered [(pos, callee, defs reachable, in_loop, (fn, bb))] for the non-macro calls of emit_wasm.  Calls to functions
+    written in the same file that are not themselves an `Emit::emit` implementation (helpers into which a maintainer
+    may split emit_wasm) are expanded in place, recursively, so the order is that of the leaf steps however the
+    sequence is divided into functions.  Within one function calls are ordered by dominator depth (the sequence is
+    straight-line apart from configuration switches)."""
+    from heval import file_of
     insts = F.insts_of(EW)
     if len(insts) != 1:
         raise KeyError('emit_wasm instance')
-    inst = insts[0]
+    home = file_of(F, EW)
     out = []
-    for bb, t in c.calls():
-        if t.get('mac') and 'log' in t['mac']:
-            continue
-        name = callee_name(t)
-        if not name:
-            continue
-        edges = F.calls_from_block(inst, bb)
-        start = [e[1] for e in edges if e[2] in ('call', 'virtual', 'dyn_impl', 'mention')]
-        defs = F.reach_defs(start) if start else set()
-        defs.add(name)
-        out.append((bb, name, defs, c.in_loop(bb)))
-    # order by dominance: a before b if a dominates b; emit_wasm is essentially straight-line so bb order of the
-    # dominator chain works; verify
-    out.sort(key=lambda x: len(c.dom()[x[0]] or ()))
-    return body, c, out
+    cfgs = {}
+
+    def expandable(name, target_inst):
+        n = norm_path(name)
+        if n not in F.mir or file_of(F, n) != home or target_inst is None:
+            return False
+        if ' as emit::Emit>::emit' in n or n == EW:
+            return False
+        return True
+
+    def walk(fn, inst, prefix, inloop0, depth):
+        body = F.mir[fn]
+        c = Cfg(body)
+        cfgs[fn] = (body, c)
+        calls = []
+        for bb, t in c.calls():
+            if t.get('mac') and 'log' in t['mac']:
+                continue
+            name = callee_name(t)
+            if not name:
+                continue
+            calls.append((len(c.dom()[bb] or ()), bb, name))
+        calls.sort()
+        for k, (d, bb, name) in enumerate(calls):
+            edges = F.calls_from_block(inst, bb)
+            direct = [e[1] for e in edges if e[2] == 'call']
+            pos = prefix + (k,)
+            inloop = inloop0 or c.in_loop(bb)
+            tgt = direct[0] if len(direct) == 1 else None
+            if depth < 6 and expandable(name, tgt) and norm_path(F.instances[tgt]['def']) == norm_path(name):
+                walk(norm_path(name), tgt, pos, inloop, depth + 1)
+                continue
+            start = [e[1] for e in edges if e[2] in ('call', 'virtual', 'dyn_impl', 'mention')]
+            defs = F.reach_defs(start) if start else set()
+            defs.add(name)
+            out.append((pos, name, defs, inloop, (fn, bb)))
+    walk(EW, insts[0], (), False, 0)
+    out.sort(key=lambda x: x[0])
+    return cfgs, out
 
 
 def run(ctx):
@@ -66,59 +93,57 @@ def run(ctx):
         res.error('anchor lost: Module::emit_wasm')
         return res
     try:
-        body, c, steps = steps_of(F)
+        cfgs, steps = steps_of(F)
     except KeyError as e:
         res.error('emit_wasm not analysable: %s' % e)
         return res
     info = []
-    for bb, name, defs, inloop in steps:
+    for pos, name, defs, inloop, at in steps:
         p, g = spaces_of(defs)
-        info.append((bb, name, p, g, inloop))
-    all_spaces = set()
-    for _, _, p, g, _ in info:
-        all_spaces |= p | g
+        info.append((pos, name, p, g, inloop, at))
     short = lambda n: norm_path(n).replace('module::', '').replace(' as emit::Emit>::emit', '>').replace('<', '')
-    for i, (bb, name, p, g, inloop) in enumerate(info):
+    wh = lambda at: where(cfgs[at[0]][0], at[1])
+    for i, (pos, name, p, g, inloop, at) in enumerate(info):
         for k in sorted(g):
             key = 'lookup/%s/%s' % (short(name), k)
             writers = [(j, info[j]) for j in range(len(info)) if k in info[j][2]]
             if not writers:
-                res.bad(key + '/no-writer', 'step %s looks up %s indices but no emit step assigns them' % (short(name), k),
-                        where(body, bb))
+                res.bad(key + '/no-writer', 'step %s looks up %s indices but no emit step assigns them' % (short(name), k), wh(at))
                 continue
-            late = [w for j, w in writers if j > i and not c.dominates(w[0], bb)]
+            late = [w for j, w in writers if j > i]
             early = [w for j, w in writers if j <= i]
             if late:
                 res.bad(key, 'step %s looks up %s indices before step %s assigns them'
-                        % (short(name), k, ', '.join(short(w[1]) for w in late)), where(body, bb))
+                        % (short(name), k, ', '.join(short(w[1]) for w in late)), wh(at))
             elif not early:
-                res.bad(key, 'step %s looks up %s indices that are assigned only later' % (short(name), k), where(body, bb))
+                res.bad(key, 'step %s looks up %s indices that are assigned only later' % (short(name), k), wh(at))
             else:
                 res.ok(key, {'step': short(name), 'looks_up': k, 'assigned_by': [short(w[1]) for w in early]})
     # hand-over: take(cx.indices) after every pushing step, before every CustomSection::data
-    takes = [(bb, t) for bb, t in c.calls() if norm_path(callee_name(t) or '') == 'std::mem::take']
-    datas = [bb for bb, name, p, g, l in info if norm_path(name).endswith('CustomSection::data')]
     handover = None
-    for bb, t in takes:
-        # the one whose result type is IdsToIndices
-        dest = t['dest'][0]
-        if 'IdsToIndices' in body['locals'][dest]['ty']:
-            handover = bb
+    for i, (pos, name, p, g, inloop, at) in enumerate(info):
+        if norm_path(name) == 'std::mem::take':
+            body = cfgs[at[0]][0]
+            t = body['blocks'][at[1]]['term']
+            dest = t['dest'][0]
+            if 'IdsToIndices' in body['locals'][dest]['ty']:
+                handover = i
+    datas = [i for i, x in enumerate(info) if norm_path(x[1]).endswith('CustomSection::data')]
     if handover is None:
         if datas:
             res.bad('handover/missing', 'custom sections are serialised but the emit-time index map is never handed over')
     else:
-        pushers = [(bb, name) for bb, name, p, g, l in info if p]
-        bad = [short(n) for bb, n in pushers if not c.dominates(bb, handover)]
+        pushers = [(i, x[1]) for i, x in enumerate(info) if x[2]]
+        bad = [short(n) for i, n in pushers if i > handover]
         if bad:
             res.bad('handover/early', 'the index map is handed to custom sections before %s assigned its indices' % bad,
-                    where(body, handover))
+                    wh(info[handover][5]))
         else:
             res.ok('handover/after-all-sections', {'handover_after': [short(n) for _, n in pushers]})
         for d in datas:
-            if c.dominates(handover, d):
-                res.ok('handover/before-custom-data', {'custom_data_at': where(body, d)})
+            if handover < d:
+                res.ok('handover/before-custom-data', {'custom_data_at': wh(info[d][5])})
             else:
-                res.bad('handover/before-custom-data', 'CustomSection::data runs before the index map is complete', where(body, d))
-    res.note('steps: ' + ' -> '.join(short(n) for _, n, p, g, l in info if p or g))
+                res.bad('handover/before-custom-data', 'CustomSection::data runs before the index map is complete', wh(info[d][5]))
+    res.note('steps: ' + ' -> '.join(short(x[1]) for x in info if x[2] or x[3]))
     return res
